@@ -131,3 +131,27 @@ PROPS["C06"] = dict(
          "observable); distinct by source text",
     assumptions=["outcome and ordered host-call log are the observations; wall-clock is not"],
 )
+
+
+def cmp_laws(td, imp, model, case):
+    if imp == model:
+        return None
+    if td.get("kind", "").startswith("law"):
+        return "a law of the property fails on the implementation's own answers: " + imp
+    return cmp_eval(td, imp, model, case)
+
+
+PROPS["C09"] = dict(
+    streams=["C09"],
+    compare=cmp_laws,
+    gate_imports="From Cel.Model Require Import Compare.\nFrom Cel.Proofs Require Import CompareProofs.\nFrom Coq Require Import QArith.\nOpen Scope Z_scope.",
+    exhaustive=True,
+    exhaustive_note="all ordered pairs of the boundary value set through Value::eq and partial_cmp "
+                    "directly plus the pair laws; all numeric pairs through the 12 program forms; "
+                    "thorough: all pairs through programs and all triples for the transitivity laws",
+    rule="a case is a (form, value pair/triple); non-trivial when it mixes numeric types or "
+         "contains NaN, an infinity, a zero or a magnitude above 2^53; distinct by request+inputs",
+    assumptions=["double-double comparison is SpecFloat.SFcompare (trusted as the definition of "
+                 "IEEE-754 comparison); it is checked against Rust's f64 by this run"],
+    trusted_extra=["Coq.Floats.SpecFloat as the definition of binary64 comparison/arithmetic"],
+)
